@@ -50,7 +50,7 @@ fn flags_for(cfg: &(&str, Option<&str>, bool, bool), extra: &[&str]) -> Vec<Stri
     f
 }
 
-struct Run { ir: Ir, inv: Inventory, raw: Vec<irdump::Record> }
+struct Run { ir: Ir, inv: Inventory, raw: Vec<irdump::Record>, raw_lines: Vec<String> }
 
 fn run_bindgen(scratch: &Scratch, name: &str, text: &str, flags: &[String], clang: &[String]) -> Result<Run, String> {
     let f: Vec<&str> = flags.iter().map(|s| s.as_str()).collect();
@@ -61,7 +61,8 @@ fn run_bindgen(scratch: &Scratch, name: &str, text: &str, flags: &[String], clan
     let recs = log.dumps.last().cloned().ok_or("no IR dump")?;
     let ir = Ir::from_dump(&recs);
     let inv = Inventory::parse(&b)?;
-    Ok(Run { ir, inv, raw: recs })
+    let raw_lines = log.raw_ir_lines.last().cloned().unwrap_or_default();
+    Ok(Run { ir, inv, raw: recs, raw_lines })
 }
 
 fn comp_request(c: &IrComp, tests: bool, offset_of: bool) -> String {
@@ -220,6 +221,14 @@ fn mangle_arg(a: &str) -> String { a.replace(' ', "_") }
 fn gen_templates(rng: &mut Rng) -> (String, Vec<(String, String)>) {
     let mut text = String::from("template<typename T> struct Box { T v; int n; };\ntemplate<typename T, typename U> struct Pair { T a; U b; char c; };\ntemplate<typename T> struct Wrap { T *p; T arr[3]; };\ntemplate<typename T> struct Unbound { Box<T> inner; };\n");
     let mut uses = vec![];
+    // concrete instantiations declared inside a class template, next to dependent ones
+    let nested = rng.below(3) != 0;
+    if nested {
+        let a = *rng.pick(TARGS); let b = *rng.pick(TARGS);
+        let _ = writeln!(text, "template<typename T> struct Holder {{ Box<{a}> flags; Box<T> payload; T extra; Pair<{b}, {a}> both; }};");
+        uses.push((format!("Box<{a}>"), format!("Box_open0_{}_close0", mangle_arg(a))));
+        uses.push((format!("Pair<{b}, {a}>"), format!("Pair_open0_{}_{}_close0", mangle_arg(b), mangle_arg(a))));
+    }
     let n = 2 + rng.below(6);
     text.push_str("struct Uses {\n");
     for i in 0..n {
@@ -234,6 +243,7 @@ fn gen_templates(rng: &mut Rng) -> (String, Vec<(String, String)>) {
         let _ = writeln!(text, "  {spell} u{i};");
         uses.push((spell, name));
     }
+    if nested { let a = *rng.pick(TARGS); let _ = writeln!(text, "  Holder<{a}> held;"); }
     text.push_str("};\n");
     (text, uses)
 }
@@ -251,13 +261,34 @@ fn check_templates(scratch: &Scratch, tag: &str, rng: &mut Rng, targets: &[&str]
         };
         let mut oracle: BTreeMap<String, (u64, u64)> = BTreeMap::new();
         for (i, (_, n)) in uses.iter().enumerate() { oracle.insert(n.clone(), (vals[2 * i], vals[2 * i + 1])); }
-        for cfg in [&CONFIGS[0], &CONFIGS[1]] {
+        // third run: the user allowlists every template and `Uses` by name, non-recursively (the map behind
+        // `uses_any_template_parameters` is then filled without the analysis)
+        const NONREC: &[&str] = &["--no-recursive-allowlist", "--allowlist-type", "Box|Pair|Wrap|Unbound|Holder|Uses"];
+        for (cfg, extra) in [(&CONFIGS[0], &[][..]), (&CONFIGS[1], &[][..]), (&CONFIGS[0], NONREC), (&CONFIGS[3], NONREC)] {
             stats.runs += 1;
-            let run = match run_bindgen(scratch, &hname, &text, &flags_for(cfg, &[]), &clang) {
+            let nonrec = !extra.is_empty();
+            if nonrec { *stats.by_form.entry("inst-nonrecursive-runs".into()).or_insert(0) += 1; }
+            let run = match run_bindgen(scratch, &hname, &text, &flags_for(cfg, extra), &clang) {
                 Ok(r) => r,
                 Err(e) => { stats.bindgen_errors += 1; issues.push(Issue { class: "bindgen-failed".into(), target: t.to_string(), config: cfg.0.into(), comp: String::new(), detail: e, header: text.clone() }); continue; }
             };
-            let mk = |class: &str, comp: &str, detail: String| Issue { class: class.into(), target: t.to_string(), config: cfg.0.into(), comp: comp.into(), detail, header: text.clone() };
+            let mk = |class: &str, comp: &str, detail: String| Issue { class: class.into(), target: t.to_string(), config: format!("{}{}", cfg.0, if nonrec { " --no-recursive-allowlist --allowlist-type Box|Pair|Wrap|Unbound|Holder|Uses" } else { "" }), comp: comp.into(), detail, header: text.clone() };
+            // the map behind `uses_any_template_parameters`, recomputed by the model from the dumped graph
+            // (the analysis when allowlisting is recursive, the items' own parameters when it is not)
+            {
+                let mut req: Vec<String> = vec!["ir-begin".into()];
+                req.extend(run.raw_lines.iter().cloned());
+                req.push("ir-end".into());
+                req.push("irchk 0".into());
+                let ans = util::model(&req);
+                let line = ans.iter().find(|l| l.starts_with("irchk")).cloned().unwrap_or_default();
+                match line.split(' ').find(|t| t.starts_with("used_template_params=")) {
+                    Some(tok) if tok.ends_with("=ok") => { *stats.by_form.entry("used-template-params-recomputed".into()).or_insert(0) += 1; }
+                    Some(tok) if tok.contains("DIFF") => issues.push(mk("correspondence", "", format!("used template parameters: model and implementation differ ({tok}; item:model:dumped)"))),
+                    Some(_) => {}
+                    None => issues.push(mk("machinery", "", format!("no used_template_params answer from the model: {line}"))),
+                }
+            }
             // expected from the IR: instantiation types that are code-generated
             let mut item_flags: BTreeMap<u64, (bool, bool)> = BTreeMap::new(); // id -> (codegen, opaque)
             let mut used: BTreeMap<u64, bool> = BTreeMap::new();
